@@ -34,7 +34,7 @@ var (
 	fullAtomic = map[string]string{"time": shim + "vtime", "math/rand": shim + "vrand", "crypto/rand": shim + "vcrand", "sync": shim + "vsync", "sync/atomic": shim + "vatomic"}
 )
 
-var fullNet = map[string]string{"time": shim + "vtime", "math/rand": shim + "vrand", "crypto/rand": shim + "vcrand", "sync": shim + "vsync", "net": shim + "vnet"}
+var fullNet = map[string]string{"time": shim + "vtime", "math/rand": shim + "vrand", "crypto/rand": shim + "vcrand", "sync": shim + "vsync", "sync/atomic": shim + "vatomic", "net": shim + "vnet"}
 
 var profiles = map[string]profile{
 	"pkg/socks5":              {fullNet, true},
